@@ -27,11 +27,11 @@ on the logs of its input ports (C01 / C02 / the per-step order-independence theo
 of a step's inputs makes the step emit exactly that, up to order). -/
 structure Consistent (sp : Spec) (logs : Env) : Prop where
   src : ∀ p, (∀ n ∈ sp.nodes, p ∉ n.outs) → logs.get p = (srcEnv sp).get p
-  node : ∀ n ∈ sp.nodes, ∀ j o, n.outs[j]? = some o → (logs.get o).Perm ((nodeOut logs n)[j]?.getD [])
+  node : ∀ n ∈ sp.nodes, ∀ (j o : Nat), n.outs[j]? = some o → (logs.get o).Perm ((nodeOut logs n)[j]?.getD [])
 
 /-- the statement proved in `SFV/Lemmas/NetPerm.lean`: a node's outputs do not depend on the order of its inputs -/
 def NodeOutPermStmt : Prop :=
   ∀ (n : Node) (e1 e2 : Env), EnvPermOn n.ins e1 e2 → NodeInputsOk e1 n →
-    ∀ j, ((nodeOut e1 n)[j]?.getD []).Perm ((nodeOut e2 n)[j]?.getD [])
+    ∀ j : Nat, ((nodeOut e1 n)[j]?.getD []).Perm ((nodeOut e2 n)[j]?.getD [])
 
 end SFV.Net
